@@ -31,6 +31,7 @@ PhaseClauses(q) ==
   \cup (IF q.ravg # "eq" THEN {"C02:Ravg=M1/M0"} ELSE {})
   \cup (IF q.vf # "eq" THEN {"C02:volFrac=rvM3"} ELSE {})
   \cup (IF "denslaw" \in DOMAIN q /\ q.denslaw \notin {"lt", "eq"} THEN {"C02:density-law"} ELSE {})
+  \cup (IF "densdouble" \in DOMAIN q /\ q.densdouble THEN {"C02:density-law(coarse: doubled in one step beyond nucleation)"} ELSE {})
   \cup (IF ~AllEq(q.fconc, "eq") THEN {"C01:fconc=weighted-M3"} ELSE {})
   \cup (IF ~q.removed01 THEN {"C02:removed-classes-hold-[0,1)"} ELSE {})
   \cup (IF ~q.clipok THEN {"C02:stored=step-result-minus-classes-below-one"} ELSE {})
